@@ -10,6 +10,7 @@ import BqVerif.Proofs.CircSem
 import BqVerif.Proofs.CircUnfoldSem
 import BqVerif.Proofs.CircUnfoldAll
 import BqVerif.Proofs.CircBatchUnfoldSem
+import BqVerif.Proofs.CircBatchUnfoldOk
 import BqVerif.Proofs.CircRemoveAll
 import BqVerif.Proofs.CircSlice
 /-! # C04 — Circuit editing calls have their documented effect on program order -/
@@ -519,5 +520,63 @@ example :
       c.getSlice [(0, 0), (-1, 0)] = .ok ⟨[2], [[⟨1, [], [0], [2]⟩], [⟨2, [], [0], [2]⟩]]⟩ ∧
       c.getSlice [(-1, 1)] = .ok ⟨[3, 2], [[⟨7, [], [1, 0], [2, 3]⟩]]⟩ ∧
       c.getSlice [(1, 2)] = .error .index ∧ c.getSlice [(3, 0)] = .error .index := by decide
+
+/-- **batch_unfold completes when every point holds a block**: for a hereditarily well-formed table
+and a fitting `Inv` circuit, if every point addresses an operation that is a block of the table,
+the call returns normally, and its result is reached from `c` by a CHAIN OF SUCCESSFUL SINGLE
+`unfold`s (`UnfoldChain`): exactly one for every listed `(cycle, block)` pair — `found` are the
+addressed operations, `buSorted` collapses duplicates and orders them by cycle and `location[0]` —
+taken from the last to the first, each applied at a cycle `K ≥` its listed cycle whose cell on the
+block's `location[0]` holds that very block at that moment.  (So no listed block is skipped or
+unfolded twice, and each step is described by `C04_unfold_timeline`.)  The proof shows that
+`seekOp` always finds the block: unfolding a block of cycle `k` leaves the earlier cycles' cells
+alone (`unfold_cell_below`) and moves the other operations of cycle `k` TOGETHER to one cycle
+`K' ≥ k`, the cycles in between holding only body operations on the unfolded block's qudits
+(`unfold_same_cycle`, from the shape of the grid during `insert_circuit`, `insF_fold_form`). -/
+theorem C04_batch_unfold_all_blocks (c : Circ) (hinv : c.Inv) (b : Blocks) (hb : b.HF)
+    (hfit : Fits b c) (pts : List (Int × Int))
+    (hpts : ∀ p ∈ pts, ∃ k q o, c.getOp p = .ok (k, q, o) ∧ ∃ body, b.body? o.gid = some body) :
+    ∃ found, pts.mapM c.getOp = .ok found ∧ (∀ r, r ∈ found ↔ ∃ p ∈ pts, c.getOp p = .ok r) ∧
+      (c.batchUnfold b pts).2 = .ok () ∧
+      UnfoldChain b c (buSorted c found).reverse (c.batchUnfold b pts).1 ∧
+      (buSorted c found).Nodup ∧
+      (∀ k o, (k, o) ∈ buSorted c found ↔ ∃ q, (k, q, o) ∈ found) := by
+  obtain ⟨found, h1, h2, h3, h4⟩ := batchUnfold_ok c hinv b hb hfit pts hpts
+  obtain ⟨hpw, hmem⟩ := buSorted_props c found
+  refine ⟨found, h1, h2, h3, h4, hpw.imp (fun {a b'} h => fun e => h.2 e.symm), ?_⟩
+  intro k o
+  rw [hmem]
+  constructor
+  · rintro ⟨_, h⟩; exact h
+  · rintro ⟨q, hq⟩
+    refine ⟨?_, q, hq⟩
+    obtain ⟨p, _, hg⟩ := (h2 _).1 hq
+    obtain ⟨_, _, _, _, hcell⟩ := getOp_spec c p k q o hg
+    exact cell_lt c k q o hcell
+
+/-- the two facts about one `unfold` that make `seekOp` succeed -/
+theorem C04_unfold_keeps_places (c : Circ) (hinv : c.Inv) (b : Blocks) (p : Int × Int)
+    (k q0 : Nat) (o : Op) (body : Circ) (hg : c.getOp p = .ok (k, q0, o))
+    (hbody : b.body? o.gid = some body) (hbinv : body.Inv) (hfit : body.radixes = o.rad) :
+    (∀ t, t < k → ∀ q y, c.cell t q = some y → (c.unfold b p).1.cell t q = some y) ∧
+    ∃ K', k ≤ K' ∧ ∀ y, (∃ h : k < c.cycles.length, y ∈ c.cycles[k]) → y ≠ o →
+      (c.unfold b p).1.cell K' y.head = some y ∧
+      (∀ t, k ≤ t → t < K' → (c.unfold b p).1.cell t y.head = none) ∧
+      (∀ t, t < k → ∀ q, (c.unfold b p).1.cell t q = c.cell t q) :=
+  ⟨fun t ht q y hy => unfold_cell_below c hinv b p k q0 o body hg hbody hbinv hfit t ht q y hy,
+    unfold_same_cycle c hinv b p k q0 o body hg hbody hbinv hfit⟩
+
+-- non-vacuity: the hypotheses on the two-blocks-in-one-cycle circuit (table `HF` shown above)
+example :
+    let body : Circ := ⟨[2, 2], [[⟨1, [], [0], [2]⟩], [⟨6, [], [0, 1], [2, 2]⟩]]⟩
+    let b : Blocks := [(1000, body)]
+    let blkA : Op := ⟨1000, [], [0, 1], [2, 2]⟩
+    let blkB : Op := ⟨1000, [], [3, 2], [2, 2]⟩
+    let c : Circ := ⟨[2, 2, 2, 2], [[blkA, blkB]]⟩
+    c.invB = true ∧ c.getOp (0, 3) = .ok (0, 3, blkB) ∧ c.getOp (-1, 1) = .ok (0, 1, blkA) ∧
+      b.body? blkA.gid = some body ∧ b.body? blkB.gid = some body ∧
+      [(0, 3), (-1, 1)].mapM c.getOp = .ok [(0, 3, blkB), (0, 1, blkA)] ∧
+      buSorted c [(0, 3, blkB), (0, 1, blkA)] = [(0, blkA), (0, blkB)] ∧
+      (c.batchUnfold b [(0, 3), (-1, 1)]).2 = .ok () := by decide
 
 end BqVerif.C04
